@@ -6,7 +6,7 @@ STEPS = {
     "C01": ["expunge_step", "resync_step"],
     "C02": ["expunge_step", "resync_step", "pack_step", "append_step", "copy_step"],
     "C03": ["expunge_step", "resync_step", "pack_step", "append_step", "copy_step"],
-    "C04": ["store_step", "append_step", "copy_step", "pack_step", "resync_step"],
+    "C04": ["store_step", "store_seq_step", "append_step", "copy_step", "pack_step", "resync_step"],
     "C05": ["expunge_step", "store_step", "append_step", "copy_step"],
     "C13": ["expunge_step", "resync_step", "pack_step", "store_step", "append_step", "copy_step"],
     "C15": ["copy_step"],
@@ -48,6 +48,9 @@ def mboxops_jobs(prop, tier):
                 for action in (0, 1, 2):
                     for fs in range(9):
                         add(f"store_step[n={n},x={x},action={action},fs={fs}]", "store_step", n=n, x=x, action=action, fs=fs)
+    if "store_seq_step" in steps:
+        for a1 in (0, 1, 2):
+            add(f"store_seq_step[a1={a1}]", "store_seq_step", k=3, a1=a1)
     if "append_step" in steps:
         for n in ([0, 2] if q else [0, 1, 2]):
             add(f"append_step[n={n}]", "append_step", n=n)
@@ -65,6 +68,7 @@ SAMPLES = {
     "resync_step": {"module": M, "fn": "resync_step", "params": {"n": 2, "nd": 2, "idle": False}, "args": {"k1": 1, "k2": 2, "k3": 1, "u1": 1, "u2": 3, "u3": 1, "slack": 2, "nd": 2, "g": 1, "un1": True, "un2": False, "s1": True, "s2": False, "s3": False, "stale": False, "bump": True, "idle": False}},
     "pack_step": {"module": M, "fn": "pack_step", "params": {"n": 3, "kgaps": [2, 3, 1, 1]}, "args": {"k1": 2, "k2": 3, "k3": 1, "k4": 1, "u1": 2, "u2": 1, "u3": 3, "u4": 1, "s1": True, "s2": False, "s3": True, "s4": False, "limit": 2}},
     "store_step": {"module": M, "fn": "store_step", "params": {"n": 2, "x": "Deleted", "action": 0, "fs": 3}, "args": {"k1": 1, "k2": 2, "k3": 1, "sn1": True, "sn2": False, "sn3": False, "x1": False, "x2": True, "x3": False, "rc1": True, "rc2": False, "rc3": False, "a1": True, "a2": True, "a3": False, "action": 0, "fs": 3, "uidcmd": True, "idle": False}},
+    "store_seq_step": {"module": M, "fn": "store_seq_step", "params": {"k": 3, "a1": 1}, "args": {"a1": 1, "a2": 2, "a3": 1, "f1": 0, "f2": 0, "f3": 0, "init": False, "idle": False}},
     "append_step": {"module": M, "fn": "append_step", "params": {"n": 2}, "args": {"k1": 1, "k2": 2, "u1": 1, "u2": 2, "slack": 1, "fs": 3, "dated": True, "ts": 777}},
     "copy_step": {"module": M, "fn": "copy_step", "params": {"n": 2, "form": 2, "uidcmd": True, "same": False, "emax": 9}, "args": {"u1": 1, "u2": 2, "u3": 1, "e1": 1, "e2": 3, "form": 2, "uidcmd": True, "same": False, "dslack": 1, "x1": True, "x2": False, "x3": False}},
 }
